@@ -1,3 +1,101 @@
+/-
+C06 — kernel-checked witnesses (evaluation in the kernel, `decide`) of the known findings of known_findings.json, and of
+one defect that was repaired in /repo (the model follows the repaired code; the pre-fix behaviour is kept here).
+
+Each known finding is a signature on which the model of chibicc (`callerAssign` / `calleeAssign` / `calleeVa`) differs from
+the psABI (`Spec.PsABI`); the check replays the same signatures on the real binary against gcc and clang on every run.
+-/
 import ChibiVerif.Model.CallConv
+import ChibiVerif.Spec.PsABI
+import ChibiVerif.Spec.CallRegions
+import ChibiVerif.Lemmas.CallConvLemmas
+import ChibiVerif.Props.C06
+
 namespace ChibiVerif.Findings.C06
+open ChibiVerif.CallConv
+open ChibiVerif.Spec
+open ChibiVerif.Props.C06
+
+deriving instance DecidableEq for Except
+
+def int4 : ATy := .int 4 false false
+def long8 : ATy := .int 8 false false
+
+/-- `struct { long double x; }` -/
+def structLd : ATy := .agg false 16 16 (.cons 0 .ldbl .nil)
+/-- `struct { _Alignas(16) int x; }` -/
+def structA16 : ATy := .agg false 16 16 (.cons 0 int4 .nil)
+/-- `struct __attribute__((packed)) { char c; double d; }` -/
+def structPacked : ATy := .agg false 9 1 (.cons 0 (.int 1 false false) (.cons 1 .dbl .nil))
+/-- `struct { long a; }` -/
+def structL : ATy := .agg false 8 8 (.cons 0 long8 .nil)
+
+def fixedSig (ret : Option ATy) (ps : List ATy) : Sig := { ret := ret, params := ps, nNamed := ps.length, variadic := false }
+
+/-- C06-struct-with-ldouble, `void f(struct {long double x;}, int)`: chibicc rdi+xmm0 and rsi; psABI: memory and rdi -/
+def wLd : Sig := fixedSig none [structLd, int4]
+theorem C06_finding_struct_with_ldouble :
+    callerAssign wLd = .ok [.regs [.gp 0, .sse 0], .regs [.gp 1]] ∧ PsABI.assign wLd = [.stack 0, .regs [.gp 0]] ∧
+    calleeAssign wLd = callerAssign wLd ∧ CallRegions.supported wLd = false ∧
+    retCallee (some structLd) = .ok (.regs [.rax, .xmm0]) ∧ PsABI.ret (some structLd) = .regs [.st0] := by decide
+
+/-- C06-ldouble-stack-align, `void g(int ×7, long double)`: the long double at 8(%rsp), the psABI puts it at 16(%rsp) -/
+def wAlign : Sig := fixedSig none [int4, int4, int4, int4, int4, int4, int4, .ldbl]
+theorem C06_finding_ldouble_stack_align :
+    (callerAssign wAlign).map (fun l => l.getLast?) = .ok (some (.stack 8)) ∧ (PsABI.assign wAlign).getLast? = some (.stack 16) ∧
+    calleeAssign wAlign = callerAssign wAlign ∧ CallRegions.supported wAlign = false := by decide
+
+/-- C06-padding-eightbyte, `void f(struct {_Alignas(16) int x;}, double d)`: d in xmm1, the psABI says xmm0 -/
+def wPad : Sig := fixedSig none [structA16, .dbl]
+theorem C06_finding_padding_eightbyte :
+    callerAssign wPad = .ok [.regs [.gp 0, .sse 0], .regs [.sse 1]] ∧ PsABI.assign wPad = [.regs [.gp 0], .regs [.sse 0]] ∧
+    calleeAssign wPad = callerAssign wPad ∧ CallRegions.supported wPad = false := by decide
+
+/-- C06-packed-unaligned-param, `void f(struct __attribute__((packed)) {char c; double d;}, int)`: the prologue reaches
+    `unreachable()` in store_fp (size 1); the caller passes rdi+xmm0, the psABI memory -/
+def wPacked : Sig := fixedSig none [structPacked, int4]
+theorem C06_finding_packed_unaligned_param :
+    calleeAssign wPacked = .error .storeSize ∧ callerAssign wPacked = .ok [.regs [.gp 0, .sse 0], .regs [.gp 1]] ∧
+    PsABI.assign wPacked = [.stack 0, .regs [.gp 0]] ∧ sizesOk wPacked = false ∧ CallRegions.supported wPacked = false := by decide
+
+/-- the GNU empty struct as an argument: the second pass pushes nothing, the pop phase pops 8 bytes -/
+def wEmpty : Sig := fixedSig none [.agg false 0 1 .nil, int4]
+theorem C06_finding_empty_struct : callerAssign wEmpty = .error .stackImbalance ∧ sizesOk wEmpty = false := by decide
+
+/-- C06-va-arg-small-struct, `void f(int n, ...)` called with `(1, (struct {long a;}){..}, 2)`: the struct travels in rsi
+    (save area offset 8), `va_arg` reads the overflow area -/
+def wVa : Sig := { ret := none, params := [int4, structL, int4], nNamed := 1, variadic := true }
+theorem C06_finding_va_arg_small_struct :
+    calleeVa wVa = [.overflow 0, .saveArea 8] ∧
+    ((PsABI.assign wVa).drop 1).map PsABI.vaLoc = [some (.saveArea 8), some (.saveArea 16)] ∧
+    CallRegions.vaSmallStruct wVa = true := by decide
+
+theorem C06_abi_Statement_fails : ¬ C06_abi_Statement := by
+  intro h
+  have := (h wPad (by decide)).1
+  revert this
+  decide
+
+theorem C06_self_Statement_fails : ¬ C06_self_Statement := by
+  intro h
+  obtain ⟨a, _, h2⟩ := h wPacked
+  have : calleeAssign wPacked = .error .storeSize := by decide
+  rw [this] at h2
+  cases h2
+
+/-! ### repaired in /repo: `copy_struct_mem` left rax = address of the callee's own object (fix 658c008)
+
+The caller takes the value of a call that returns a struct of more than 16 bytes from the address in rax; before the
+fix the callee did not return the hidden pointer there. -/
+
+def retCalleeOld : Option ATy → Except Abort RetLoc
+  | some (.agg _ sz _ _) => if sz ≤ 16 then .ok (.regs []) else .ok (.memory false)
+  | _ => .ok .void
+
+theorem C06_fixed_sret_rax :
+    retCalleeOld (some (.agg false 32 8 .nil)) = .ok (.memory false) ∧
+    retCaller (some (.agg false 32 8 .nil)) = .ok (.memory true) ∧
+    retCallee (some (.agg false 32 8 .nil)) = .ok (.memory true) ∧
+    PsABI.ret (some (.agg false 32 8 .nil)) = .memory true := by decide
+
 end ChibiVerif.Findings.C06
